@@ -50,7 +50,7 @@ Record simq := mkSQ { q_sim : sim; q_pending : list pev; q_popped : option pev; 
 Inductive qev :=
 | QSim (e : ev) | QPush (p : pev) | QPop (p : pev) | QRemove (p : pev) | QSync (l : list pev).
 
-Definition ptime_of (s : sim) (t : Z) : Z := match s_tasks s t with Some x => t_ptime x | None => 0 end.
+Definition ptime_of (s : sim) (t : Z) : Z := match s_tasks s t with Some x => t_ptime x | None => -1 end.
 (* a placement event is never earlier than the time the scheduler chose for its task *)
 Definition place_ok (s : sim) (p : pev) : bool :=
   match pe_type p, pe_task p with
